@@ -62,6 +62,12 @@ RULE = ("GTF files of 1-3 genes x 1-3 transcripts x 0-4 subfeature lines ('exon'
         "(stored: the LAST line of a key, with its links only), 'warning' (the FIRST), 'merge' (one feature carrying the ids of "
         "all its lines: child of each of them), 'create_unique' (every line a feature) x all four flag combinations; both "
         "transcripts keep a line with a key of its own. "
+        "(ids shaped like collision-renames) in a file with gene/transcript lines of its own (differing from inference 2 of 4, "
+        "ordinary 1 of 4, derived-like 1 of 4) the transcripts of every gene X that has a gene line are named X_1, X_2, ... (they "
+        "keep their exon/other lines and get no transcript line: derived features when inference is on) and a gene without a line "
+        "one of whose transcripts T has a transcript line is named T_1 (7 of 10); all four flag combinations for every other file, "
+        "merge_strategy drawn for 1 of 3: every explicit line stays the single feature under its id with its own columns and "
+        "attributes, every derived 'X_<k>' / 'T_1' has its type, extent and relatives. "
         "Exon lines that carry a gene id but no (or an empty) transcript id are never generated. "
         "non-trivial = >= 2 transcripts in "
         "one gene and >= 1 transcript with >= 2 subfeature lines; distinct = file text + keys + flag combination + way of input")
@@ -99,7 +105,13 @@ REQUIRED = ["imports", "derived features compared (id, type, seqid, strand)", "d
     "one key, several lines (replace): replaced lines naming another transcript than the stored line, custom keys",
     "one key, several lines (replace): derived extents compared of transcripts/genes that lost a line to replacement",
     "one key, several lines (warning): skipped lines (not stored; their links expected absent)",
-    "one key, several lines (merge): stored features carrying >= 2 transcript ids, child of each"]
+    "one key, several lines (merge): stored features carrying >= 2 transcript ids, child of each",
+    "rename-shaped ids: imports judged",
+    "rename-shaped ids: gene lines 'X' with a transcript named 'X_<k>' in the file compared (single feature, own columns)",
+    "rename-shaped ids: derived transcripts named 'X_<k>' beside a gene line 'X' compared (type, extent)",
+    "rename-shaped ids: derived transcripts 'X_<k>' compared in an import where inference also met the gene line 'X'",
+    "rename-shaped ids: such imports where the gene line differs from a derived gene (another source)",
+    "rename-shaped ids: transcript lines 'T' beside a gene named 'T_1' compared (single feature, own columns)"]
 REQUIRED_CLASSES = ["flags: infer both", "flags: no transcripts", "flags: no genes", "flags: infer nothing",
                     "file: gene/transcript lines present", "file: no gene/transcript lines", "file: explicit lines look derived (merge path)",
                     "file: transcript without exons", "keys: custom", "keys: default", "subfeature: custom",
@@ -119,7 +131,8 @@ REQUIRED_CLASSES = ["flags: infer both", "flags: no transcripts", "flags: no gen
                     "mixed strands: antisense transcript", "mixed strands: trans-spliced",
                     "one key, several lines: keys custom", "one key, several lines: keys default",
                     "one key, several lines: the lines of a key differ in coordinates",
-                    "one key, several lines: a key shared by transcripts of two genes"]
+                    "one key, several lines: a key shared by transcripts of two genes",
+                    "rename-shaped ids: transcripts 'X_1', 'X_2' of a gene line 'X'", "rename-shaped ids: gene 'T_1' of a transcript line 'T'"]
 ASSUMPTIONS = [
     "the reference model gvmon/models/gtfinfer.py is a faithful reading of the statement",
     "exons (subfeature lines) of one transcript and of one gene share their seqid (otherwise 'the exons' seqid' is "
@@ -135,6 +148,10 @@ ASSUMPTIONS = [
     "transcript/gene id of its lines and is a child of each.  Every transcript involved keeps a line with a key of its own, "
     "so the gene-transcript links never rest on a line that is not stored (elsewhere the statement is silent: not generated). "
     "merge_strategy='error' raises by definition and is not part of this class",
+    "ids are opaque: an id that looks like the name a key collision would be renamed to ('X_1' beside 'X') is an ordinary id. NOT "
+    "generated (the unchanged tree deviates there, reported separately): a gene line 'X' (not mergeable with the derived gene: "
+    "another source / coordinates) together with a TRANSCRIPT LINE 'X_1' of the file, and a transcript line 'T' together with "
+    "an exon line stored under the key 'T_1' (id_spec exon_id): the line stored under '<id>_1' loses its attributes",
     "a transcript id annotated under several gene ids (shared-transcript class only): each gene id that owns >= 1 subfeature "
     "line gets one derived gene spanning the subfeature lines carrying THAT gene id; the transcript gets one derived feature "
     "spanning all subfeature lines carrying the transcript id; every line is a level-1 child of its transcript and a level-2 "
@@ -305,6 +322,8 @@ def import_one(ctx, case, m):
                 ctx.mon("mixed strands: imports judged (relations, children/parents)")
             if m.get("dupkeys"):
                 observe_dupkeys(ctx, case, m, lines, exp)
+            if m.get("rename_shaped"):
+                observe_rename_shaped(ctx, case, m, exp)
         return got
     finally:
         if db is not None:
@@ -542,6 +561,29 @@ def observe_dupkeys(ctx, case, m, lines, exp):
                 ctx.mon("one key, several lines (merge): stored features carrying >= 2 transcript ids, child of each")
 
 
+def observe_rename_shaped(ctx, case, m, exp):
+    """Monitors of the 'ids shaped like collision-renames' class for one import that agreed with the model."""
+    R = "rename-shaped ids: "
+    ctx.mon(R + "imports judged")
+    genes = {g for g, k in exp["kind"].items() if k == "gene"}
+    for t in m["rename_shaped"]["transcripts"]:
+        g = t.rsplit("_", 1)[0]
+        if g in genes:
+            ctx.mon(R + "gene lines 'X' with a transcript named 'X_<k>' in the file compared (single feature, own columns)")
+            if t in exp["derived"]:
+                ctx.mon(R + "derived transcripts named 'X_<k>' beside a gene line 'X' compared (type, extent)")
+                if not case["dig"]:
+                    ctx.mon(R + "derived transcripts 'X_<k>' compared in an import where inference also met the gene line 'X'")
+                    if I.attr(m["lines"][exp["explicit"][g]], "tag") is not None and m["lines"][exp["explicit"][g]]["source"] != "gffutils_derived":
+                        ctx.mon(R + "such imports where the gene line differs from a derived gene (another source)")
+    for g in m["rename_shaped"]["genes"]:
+        t = g.rsplit("_", 1)[0]
+        if exp["kind"].get(t) == "transcript":
+            ctx.mon(R + "transcript lines 'T' beside a gene named 'T_1' compared (single feature, own columns)")
+            if g in exp["derived"]:
+                ctx.mon(R + "derived genes named 'T_1' beside a transcript line 'T' compared (type, extent)")
+
+
 def subfeature_extents(lines, m):
     """{"transcript": {id: (min start, max end) of its subfeature lines}, "gene": {...}}: the ids inference derives a feature for."""
     out = {"transcript": {}, "gene": {}}
@@ -603,6 +645,11 @@ def classify(ctx, case, m=None):
         names += ["strategy: explicit lines differ in: " + d for d in m.get("differing") or ()]
     for mode in m.get("mixed_strands") or ():
         names.append("mixed strands: " + mode)
+    if m.get("rename_shaped"):
+        if m["rename_shaped"]["transcripts"]:
+            names.append("rename-shaped ids: transcripts 'X_1', 'X_2' of a gene line 'X'")
+        if m["rename_shaped"]["genes"]:
+            names.append("rename-shaped ids: gene 'T_1' of a transcript line 'T'")
     if m.get("dupkeys"):
         names.append("one key, several lines: keys " + ("default" if (tkey, gkey) == ("transcript_id", "gene_id") else "custom"))
         names.append("one key, several lines: merge_strategy=%r" % (case["merge_strategy"],))
@@ -731,6 +778,22 @@ def run(ctx):
                 continue      # lines that differ in their columns are not merged (what happens then is C-other's business)
             for dit, dig in ([(False, False)] if (i // 2) % 2 else list(FLAG_NAMES)):
                 one(ctx, {"kind": "gtf-dupkeys", "model": m, "merge_strategy": strategy, "dit": dit, "dig": dig, "db": "memory"}, m)
+    # -- (ids shaped like collision-renames) gene line 'X' with transcripts 'X_1', 'X_2'; transcript line 'T' under gene 'T_1' ---
+    for i in range(ctx.budget(48, 1200)):
+        for _ in range(40):
+            m = G.model(rng, ngenes=rng.choice([1, 2, 2, 3]), explicit=("differing", "differing", None, "derived-like")[i % 4])
+            if G.make_rename_shaped(rng, m):
+                break
+        else:
+            ctx.skip("rename-shaped ids: no file with a gene/transcript line drawn")
+            continue
+        dbkind = "file" if rng.random() < 0.15 else "memory"
+        strategy = None if i % 3 else rng.choice(G.MERGE_STRATEGIES)
+        for dit, dig in ([(False, False)] if i % 2 else list(FLAG_NAMES)):
+            case = {"kind": "gtf-renamelike", "model": m, "dit": dit, "dig": dig, "db": dbkind}
+            if strategy is not None:
+                case["merge_strategy"] = strategy
+            one(ctx, case, m)
     ctx.mon("bins.bins contract evaluations", contracts.EVALS["bins.bins"])
 
 
@@ -759,6 +822,8 @@ MANIFEST = {
             "exon_id, id_spec {gene, transcript, exon: 'exon_id'}, custom gtf keys in 2 of 3) imported with merge_strategy "
             "'replace' / 'warning' / 'merge' / 'create_unique': the model is computed over the lines that are stored features "
             "(last / first / all merged into one / all), so a replaced line's links must be gone and its transcript must no longer span it. "
+            "A further class names the transcripts of a gene that has a gene line 'X' X_1, X_2, ... (and a gene T_1 beside a "
+            "transcript line T): ids shaped like collision renames are ordinary ids; lines keep columns and attributes, derived features their type and extent. "
             "Held = no executed import disagreed.",
     "note": "Trusted: gvmon/models/gtfinfer.py, gvmon/models/hierarchy.py. Not judged: extents under a set flag, the strand of a "
             "derived feature whose exons lie on both strands, attributes of "
